@@ -358,7 +358,10 @@ def check_ray_function(index, rep, f: Func) -> Optional[ast.For]:
     name = f.name
     gname = f.node.args.args[0].arg
     from ..inline import inlined_function
-    node, inl = inlined_function(index, f)
+    from ..view import new_imported_helpers
+    # helpers of other modules that the pinned tree did not have (the counting loop moved to
+    # envs/utils.py) are read where they are called, like module-local ones
+    node, inl = inlined_function(index, f, cross=set(new_imported_helpers(index, f)))
     node = _opacity_tables_to_cells(node, gname)
     _narrow_counters(rep, node, name)
     _sized_counters(index, rep, f, 'C06.R4')
@@ -726,7 +729,9 @@ def run(index: RepoIndex, rep) -> None:
 
     unprefix = unprefix_
     from ..inline import inlined_function
-    w = walk_function(inlined_function(index, rt)[0])
+    from ..view import new_imported_helpers
+    w = walk_function(inlined_function(
+        index, rt, cross=set(new_imported_helpers(index, rt)))[0])
     rets = [e for e in w.events if e.kind == 'return' and e.value is not None]
     for r in rets:
         # a single return is reached whenever the function returns at all: its own path
@@ -754,7 +759,8 @@ def run(index: RepoIndex, rep) -> None:
               'stochastic_raytracing', srt.node.lineno, 'for ray in rays: ...',
               'the stochastic variant does not count lit rays and all rays per cell the way '
               'raytracing does', 'same counting loop')
-    w = walk_function(inlined_function(index, srt)[0])
+    w = walk_function(inlined_function(
+        index, srt, cross=set(new_imported_helpers(index, srt)))[0])
     rets = [e for e in w.events if e.kind == 'return' and e.value is not None]
     okr = False
     got = ''
